@@ -255,7 +255,7 @@ ADDENDA = {
         'PlayingPhaseWithHands through the Translated/Play theorems; the time.sleep of every trick recorded) perform exactly the operations of the '
         'reactive model (mainDealR, mainBiddingR, mainPlayingR) which C08.main_thread_follows_the_messages identifies with the session program and '
         'the logged record; hypotheses: what the translated parse_bid / parse_card return on the texts received is what the model\'s parsers return.',
- 'C11': THREADS_COMMON + 'Translated/ThreadsClientA.lean and ThreadsClientB.lean (playing_phase with the client's own ObservedPlayingPhase replica = clientPlayingR): the translated bundled Client — _connect, _deal, bidding_phase with its own '
+ 'C11': THREADS_COMMON + 'Translated/ThreadsClientA.lean and ThreadsClientB.lean (playing_phase with the client\'s own ObservedPlayingPhase replica = clientPlayingR): the translated bundled Client — _connect, _deal, bidding_phase with its own '
         'BiddingPhase replica — performs exactly the operations of the reactive client model (clientDealR, clientBiddingR), returns the contract the '
         'replica holds, raises when the replica refuses a relayed call; create_bid_message proved for all 38 calls x 4 seats by kernel evaluation.',
  'C20': THREADS_COMMON + 'Translated/ThreadsSeatB.lean: the translated PlayerThread._connect on EVERY seat table and request — the three tests in the code\'s order are '
